@@ -389,19 +389,34 @@ Fixpoint retry_ok_rev (l : list call_obs) : bool :=
 (* ... on an oldest-first list (what the node's log is) *)
 Definition retry_ok (l : list call_obs) : bool := retry_ok_rev (rev l).
 
-(* the locks a thread kept at each of its waits, oldest first *)
-Fixpoint waits_of (i : nat) (log : list (nat * ev)) (acc : list (list lock)) : list (list lock) :=
+(* the locks a thread kept at each of its waits, newest first / oldest first *)
+Fixpoint waits_rev (i : nat) (log : list (nat * ev)) : list (list lock) :=
   match log with
-  | [] => acc
-  | (j, e) :: r => waits_of i r (if Nat.eqb i j then match e with EvWait h => h :: acc | _ => acc end else acc)
+  | [] => []
+  | (j, e) :: r => if Nat.eqb i j then match e with EvWait h => h :: waits_rev i r | _ => waits_rev i r end else waits_rev i r
   end.
+Definition waits_of (i : nat) (log : list (nat * ev)) : list (list lock) := rev (waits_rev i log).
 
-(* blocks handed to the listeners, oldest first *)
-Fixpoint delivered (log : list (nat * ev)) (acc : list N) : list N :=
+(* blocks handed to the listeners, newest first / oldest first *)
+Fixpoint delivered_rev (log : list (nat * ev)) : list N :=
   match log with
-  | [] => acc
-  | (_, EvDeliver hash _) :: r => delivered r (hash :: acc)
-  | _ :: r => delivered r acc
+  | [] => []
+  | (_, EvDeliver hash _) :: r => hash :: delivered_rev r
+  | _ :: r => delivered_rev r
+  end.
+Definition delivered (log : list (nat * ev)) : list N := rev (delivered_rev log).
+
+(* the run of a program alone, with a reachable node that answers every request (the fault-free run):
+   final state and how the thread ended *)
+Fixpoint rsolo (p : rprog rout) (t : tower) : tower * rres :=
+  match p with
+  | RRet a => (t, RDone a)
+  | RExhausted => (t, RExhaust)
+  | RAcq _ k | RRel _ k | RSetFlag _ k | RWait k | RNotify k | RPersist k => rsolo k t
+  | RAct B f k => match f t with Ok b t' => rsolo (k b) t' | Abort s t' => (t', RAbort s) end
+  | RRpc B f k => match f t with Ok b t' => rsolo (k (Verdict b)) t' | Abort s t' => (t', RAbort s) end
+  | RReadFlag k => rsolo (k true) t
+  | RFetch _ k => rsolo (k FetchDone) t
   end.
 
 (* the wait-for cycles of the two recorded findings *)
